@@ -253,6 +253,26 @@ func NewHistoryCase(g *Gen, id int) (*Case, []string, string) {
 		}()
 	}
 	probe := g.execSpec()
+	primed := false
+	if f := g.R.Fork(0xc7c8); f.P(12) {
+		// directed: a slice whose Default is run through an item schema with a user test, parsed from nothing
+		g2 := &Gen{R: f, P: g.P, nextID: 500}
+		item := &Node{Kind: KString, Tests: []TestSpec{{ID: g2.id(), User: &Pred{Op: "const", B: true}}}}
+		n2 := &Node{Kind: KSlice, Elem: item, HasDef: true, DefSlice: []Leaf{{Kind: KString, S: "abc"}, {Kind: KString, S: "de"}}}
+		if f.P(50) {
+			n2 = &Node{Kind: KStruct, Fields: []Field{{Key: "tags", Node: n2}, {Key: "name", Node: &Node{Kind: KString}}}}
+		}
+		probe = g2.execSpecFor(n2)
+		probe.validate = false
+		probe.schema = Build(probe.rec, n2, false)
+		in := nilV()
+		if n2.Kind == KStruct {
+			in = IVal{Kind: "map", node: n2, M: []IKV{{K: "name", V: strV("x")}}}
+		}
+		probe.in = &in
+		probe.dest0 = reflect.Zero(probe.t)
+		primed = true
+	}
 	probeData := ""
 	if !probe.validate && (probe.node.Kind == KStruct || (probe.node.Kind == KPtr && probe.node.Elem.Kind == KStruct)) && g.R.P(20) {
 		// the probed call itself is a request whose body cannot be decoded: exactly one front-end issue,
@@ -285,6 +305,33 @@ func NewHistoryCase(g *Gen, id int) (*Case, []string, string) {
 			d = probe.in.Go(nil)
 		}
 		Exec(probe.schema, probe.validate, d, copyDest(altT, altDest), &Recorder{}, probe.opts...)
+	}
+	if primed || g.R.Fork(0xc7c7).P(45) {
+		// user tests that depend on the call's context values; the schema object is first used by a call with
+		// other values (whatever it may remember of that call is not this call's)
+		var conv func(x *Node)
+		conv = func(x *Node) {
+			for i := range x.Tests {
+				if u := x.Tests[i].User; u != nil && u.Op == "const" {
+					u.Op, u.S = "ctx_k1_eq", "prime"
+					u.B = fmt.Sprint(probe.ctxVals["k1"]) == "prime" // (never: the probe's k1 is absent or "vNN")
+				}
+			}
+			for _, f := range x.Fields {
+				conv(f.Node)
+			}
+			if x.Elem != nil {
+				conv(x.Elem)
+			}
+		}
+		conv(n)
+		var d any
+		if probe.factory != nil {
+			d = probe.factory()
+		} else if !probe.validate {
+			d = probe.in.Go(nil)
+		}
+		Exec(probe.schema, probe.validate, d, copyDest(probe.t, probe.dest0), &Recorder{}, z.WithCtxValue("k1", "prime"))
 	}
 	internals.ClearPools()
 	ref := probe.run()
